@@ -2559,7 +2559,11 @@ class ModuleTranslator:
             block = found[int(idx) if idx else 0].body
         if fr.get("after"):
             # start behind the unique statement of this type in the addressed block (e.g. after the main `While`)
-            at = [i for i, n in enumerate(block) if (self.stmt_matches(n, fr["after"]) if "=" in fr["after"] else type(n).__name__ == fr["after"])]
+            at = [i for i, n in enumerate(block) if (self.stmt_matches(n, fr["after"]) if "=" in fr["after"] else type(n).__name__ == fr["after"].partition(":")[0])]
+            if ":" in fr["after"] and "=" not in fr["after"]:
+                # additive: "Type:k" = behind the k-th (0-based) statement of that type in the block; all k+1 must exist
+                k_ = int(fr["after"].partition(":")[2])
+                at = at[k_:k_ + 1]
             if len(at) != 1:
                 raise Untranslatable(fnode, f"fragment of {fs['py']}: expected exactly one {fr['after']} statement to start after, found {len(at)}")
             block = block[at[0] + 1:]
